@@ -247,7 +247,7 @@ def c14(c):
     progs = c.generate("Gen_Transcript", env={"VERIF_DEPTH": 12 if quick else 40}, simulate="num=%d" % n)
     files = c.drive("transcript", progs, shards=max(1, min(vlib.NCPU, n // 20)))
     c.validate("Trace_Transcript", files, heap="6g")
-    need = ["challenge", "msg", "scalar", "point", "domsep"]
+    need = ["challenge", "challenge-near-kr", "msg", "scalar", "point", "domsep"]
     missing = [k for k in need if c.judged.get(k, 0) == 0]
     twins = [k for k in c.judged if k.startswith("twin/")]
     c.guard(not (missing or not any(k.endswith("/diff") for k in twins) or not any(k.endswith("/same") for k in twins)),
@@ -255,7 +255,8 @@ def c14(c):
     c.count_classes(files, lambda e: (e["op"], tuple(e["label"]), json.dumps(e.get("msg", e.get("sval", e.get("coords", 0))))[:80], e["run"], e["pending_len"]))
     c.sample_events(files, 2, keep=lambda e: e["op"] == "challenge")
     return c.finish(rule="operation sequences from TLC simulation of Gen_Transcript (labels/messages incl. empty, 40-byte labels, messages of 32..70000 bytes crossing 1024/4096/65536 pending bytes, "
-                         "scalars 0,1,5,r-1,r-2,2^128,random, points in normalised/rescaled/sign-flipped/projective representations, consecutive challenges), each run twice with one edit "
+                         "scalars 0,1,5,r-1,r-2,2^128,random, points in normalised/rescaled/sign-flipped/projective representations, consecutive challenges, scratch variables reused after in-place changes, "
+                         "messages found by search so that the next digest lies within 2^240 of k*r), each run twice with one edit "
                          "(label / argument / order / none); every challenge judged, twin streams compared; distinct = distinct (op, label, argument, run, pending length)", min_events=1000)
 
 
